@@ -565,6 +565,9 @@ func (pgi *PodGroupInfo) generateSchedulingConstraintsSignature() common_info.Sc
 	for _, signature := range signatures {
 		hash.Write([]byte(signature))
 	}
+	// Jobs with equal pod constraints still differ in what reclaim and preempt may do for them: the victims of
+	// preempt are the lower priority jobs, and a non-preemptible job is bound by its queues' deserved quota.
+	hash.Write([]byte(fmt.Sprintf("priority=%d,preemptible=%t", pgi.Priority, pgi.IsPreemptibleJob())))
 
 	return common_info.SchedulingConstraintsSignature(fmt.Sprintf("%x", hash.Sum(nil)))
 }
